@@ -13,12 +13,19 @@ import solve_oracles as so
 
 MODULE = "DfolsVerif.Properties.C03"
 BUILD_TARGETS = ss.ACCEPT_TARGETS
-THEOREMS = ["Dfols.C03.C03_label", "Dfols.C03.C03_candidate_truthful"]
+THEOREMS = ["Dfols.C03.C03_label", "Dfols.C03.C03_candidate_truthful", "Dfols.C03.booksites_eq"]
 TRUSTED_EXTRA = [
     "model = event lists accepted by BookAcc.step (hand-written mirror of the call sites of change_point/add_new_point/add_new_sample/save_point/get_final_results, the x0 exit, restarted runs and the hard-restart merge)",
     "that soln.x is the argument and soln.resid the mean of the evaluations named by the acceptor's candidate is compared on real runs (floats), not proved",
 ]
-ALLOW = ("bounds", "scaling", "proj", "avg", "soft", "hard", "npt", "growing", "regression", "noise", "diag", "randinit", "parallel")
+import gen_booksites
+
+
+def pre_build(ctx):
+    gen_booksites.regenerate(ctx)
+
+
+ALLOW = ("bounds", "scaling", "proj", "avg", "soft", "hard", "npt", "growing", "regression", "noise", "diag", "randinit", "parallel", "regu")
 
 
 def compare_candidate(a, t, d, kw):
@@ -49,7 +56,10 @@ def compare_candidate(a, t, d, kw):
 
 def _runs(ctx):
     if not hasattr(ctx, "_runs"):
-        ctx._runs = ss.run_trace_property(ctx, "book", 300, 3000, 303, None, allow=ALLOW)
+        runs, metas, stats = ss.run_trace_property(ctx, "book", 300, 3000, 303, None, allow=ALLOW)
+        r2, m2 = ss.budget_sweep(ctx, 303, 4, 30)
+        stats["budget_sweep_runs"] = len(r2)
+        ctx._runs = (runs + r2, metas + m2, stats)
     return ctx._runs
 
 
@@ -67,7 +77,7 @@ def search(ctx):
         del ctx._runs
     runs, metas, stats = _runs(ctx)
     for (seed, prob, kw, d, t, fault) in metas:
-        for sig, what in so.c03(t, d):
+        for sig, what in so.c03(t, d, h=kw.get("h")):
             ctx.fail(sig, what, {"seed": seed, "config": ss.describe(d)})
         if len([f for f in ctx.failures]) > 12:
             break
@@ -79,7 +89,10 @@ def replay(payload):
     if "seed" not in rp:
         print("replay names a broken obligation:", payload.get("broken"))
         return 1
-    prob, kw, d, t = ss.gen_run(dfols, rp["seed"], allow=ALLOW)
-    res = so.c03(t, d)
+    if len(rp["seed"]) == 5:
+        _seed, prob, kw, d, t, _f = ss.replay_sweep(dfols, rp["seed"])
+    else:
+      prob, kw, d, t = ss.gen_run(dfols, rp["seed"], allow=ALLOW)
+    res = so.c03(t, d, h=kw.get("h"))
     print("replay:", res if res else "property holds on this input now")
     return 1 if res else 0
